@@ -110,6 +110,22 @@ def gen(rng, i, ctx):
                 xa, xb = x0 - int(rng.integers(-5, 8)) * 10, x0 + w + int(rng.integers(-5, 8)) * 10
                 if xb - xa >= 20:
                     lines.append({'baseline': [[float(xa), float(y)], [float(xb), float(y)]], 'heights': [float(asc), float(desc)], 'kind': 'grid'})
+        if rng.random() < 0.5:
+            # (round 7) a comb with three teeth and a line that crosses two of them and ends exactly on the wall of the third: the clipped baseline is two pieces and a point
+            x0, y0 = [int(v) * 10 for v in rng.integers(0, 40, 2)]
+            w1, w2, w3 = [int(v) * 10 for v in rng.permutation([2, 3, 5])]
+            g1, g2 = [int(v) * 10 for v in rng.integers(1, 4, 2)]
+            bar, depth = int(rng.integers(1, 3)) * 10, int(rng.integers(4, 9)) * 10
+            xs = [x0, x0 + w1, x0 + w1 + g1, x0 + w1 + g1 + w2, x0 + w1 + g1 + w2 + g2, x0 + w1 + g1 + w2 + g2 + w3]
+            yb, yt = y0 + bar, y0 + bar + depth
+            P = [[xs[0], y0], [xs[5], y0], [xs[5], yt], [xs[4], yt], [xs[4], yb], [xs[3], yb], [xs[3], yt], [xs[2], yt], [xs[2], yb], [xs[1], yb], [xs[1], yt], [xs[0], yt]]
+            regs.append([[float(a), float(b)] for a, b in P])
+            y = yb + int(rng.integers(1, depth // 10)) * 10
+            if rng.random() < 0.5:
+                bl = [[float(xs[0] - 10 * int(rng.integers(0, 3))), float(y)], [float(xs[4]), float(y)]]       # ends on the left wall of the third tooth
+            else:
+                bl = [[float(xs[1]), float(y)], [float(xs[5] + 10 * int(rng.integers(0, 3))), float(y)]]       # starts on the right wall of the first tooth
+            lines.append({'baseline': bl, 'heights': [float(int(rng.integers(1, 3)) * 5), 5.0], 'kind': 'grid'})
         if not lines:
             lines.append({'baseline': [[0.0, 5.0], [50.0, 5.0]], 'heights': [10.0, 5.0], 'kind': 'grid'})
         return {'cls': cls, 'regions': regs, 'lines': lines, 'region_ids': ['r%d' % k for k in range(len(regs))]}
@@ -193,12 +209,27 @@ def gen(rng, i, ctx):
         cx, cy = r[:, 0].mean(), r[:, 1].mean()
         x0, y0, L = float(cx - rng.uniform(5, 40)), float(cy + rng.uniform(-10, 40)), float(rng.uniform(10, 60))
         lines.append({'baseline': [[x0, y0], [x0 + L, y0 + float(rng.uniform(-3, 3))]], 'heights': [float(rng.uniform(5, 15)), float(rng.uniform(2, 6))], 'kind': 'detached'})
+    if rng.random() < 0.15 and len(regs) < 5:
+        # (round 7) a region of 2 x 2 px (a speck kept by the region detector) crossed diagonally: the piece inside is 2.83 px long
+        xs_, ys_ = float(int(rng.integers(900, 1000))), float(int(rng.integers(20, 900)))
+        regs.append([[xs_, ys_], [xs_ + 2, ys_], [xs_ + 2, ys_ + 2], [xs_, ys_ + 2]])
+        e_ = float(rng.choice([0.0, 1.0, 3.0]))
+        lines.append({'baseline': [[xs_ - e_, ys_ - e_], [xs_ + 2 + e_, ys_ + 2 + e_]], 'heights': [3.0, 2.0], 'kind': 'speck'})
     names = [['r%d' % k for k in range(len(regs))], ['r000', 'r000_1', 'r001', 'r001_1', 'r000_3'][:len(regs)], ['r000_1', 'r000', 'r000_3', 'r001', 'r001_3'][:len(regs)]][int(rng.integers(0, 3))]
     return {'cls': cls, 'regions': regs, 'lines': lines, 'region_ids': names}
 
 
 def describe(case):
     return case
+
+
+def line_pieces(geom):
+    """the one-dimensional parts of a clipped baseline (a touching point or a stray vertex is not a piece)"""
+    if geom.geom_type == 'LineString':
+        return [geom] if geom.length > 0 else []
+    if geom.geom_type in ('MultiLineString', 'GeometryCollection'):
+        return [g for g in geom.geoms if g.geom_type == 'LineString' and g.length > 0]
+    return []
 
 
 def check(case, mon, ctx):
@@ -283,8 +314,8 @@ def check(case, mon, ctx):
                 elif really_touches is False:
                     mon.count('pocket_lines_checked')
                     mon.violation('non-touching-line-never-placed', dict(w, note='the line lies between the self-touching outline and its convex hull and touches nothing the outline encloses'))
-                if valid and inter.geom_type in ('MultiLineString', 'LineString'):
-                    longest = max(g.length for g in inter.geoms) if inter.geom_type == 'MultiLineString' else inter.length
+                if valid and line_pieces(inter):
+                    longest = max(g.length for g in line_pieces(inter))
                     if abs(lb.length - longest) > 1e-6:
                         mon.violation('keeps-longest-piece', dict(w, placed_length=lb.length, longest=longest))
                 if case['lines'][li].get('kind') == 'bent':
@@ -301,10 +332,10 @@ def check(case, mon, ctx):
                     mon.count('not_touching_pairs')
                 elif really_touches is False:
                     mon.count('pocket_lines_checked')
-                if valid and inter.geom_type in ('MultiLineString', 'LineString'):
-                    longest = max(g.length for g in inter.geoms) if inter.geom_type == 'MultiLineString' else inter.length
+                if valid and line_pieces(inter):
+                    longest = max(g.length for g in line_pieces(inter))
                     T = sg.Polygon(t)
-                    if longest > 2.001 and T.is_valid and P.intersection(T).geom_type in ('Polygon', 'MultiPolygon') and P.intersection(T).area > 1e-6:
+                    if longest > 2.001 and T.is_valid and P.intersection(T).area > 1e-6:
                         mon.violation('entering-line-keeps-its-longest-piece', dict(w, longest_piece=longest, note='the line enters the region but nothing was placed',
                                                                                   kind=case['lines'][li].get('kind')))
                 if valid and inter.geom_type in ('MultiLineString', 'LineString') and case['lines'][li].get('kind') == 'bent':
